@@ -6,7 +6,6 @@ use crate::gen::{self, Content};
 use crate::refimpl::{self, Scheme, RG, RS, SCHEMES};
 use crate::suite::*;
 use crate::{for_both, hx, Ctx, Tier};
-use bls12_381_plus::ff::Field;
 use blsful::*;
 use serde_json::json;
 
